@@ -5,7 +5,7 @@ the verdict is the model's, the sides only got instantiated, a success made them
 length) and instantiated nothing it did not have to (the result is the model's most general one up to the choice of
 representative variables).  A unifier that accepts two different types, skips the occurs check somewhere, forgets a
 constructor or binds too much is rejected at the call where it happens, whether or not the program's outcome shows it."""
-import json, os, threading
+import copy, json, os, threading
 from common import *
 
 WILD = (1 << 64) - 1
@@ -125,7 +125,54 @@ def validate(cases, rep, name, ident=lambda c: c.get("ident", c["id"]), limit_ms
             why = "+".join(k for k in ("verdict", "grows", "unified", "general") if not rj[k])
             kinds = "/".join(sorted({call["l"]["k"], call["r"]["k"]}))
             rep.violation(f"{ident(c)}:unify:{why}:{kinds}", {"call": call, "failed": why, "source": c.get("text", c.get("path"))})
+    stats["selftest_corrupted_calls_rejected"] = selftest([r for r, _ in recs], name)
     return stats
+
+
+def _subst_var(t, v, by):
+    if t["k"] == "var":
+        return copy.deepcopy(by) if t["v"] == v else t
+    return dict(t, a=[_subst_var(x, v, by) for x in t["a"]])
+
+
+def _vars(t, out):
+    if t["k"] == "var":
+        out.add(t["v"])
+    for x in t["a"]:
+        _vars(x, out)
+    return out
+
+
+def selftest(calls, name):
+    """Binding demonstration: recorded calls with ONE field corrupted must all be rejected by UnifyTrace.tla - the verdict flipped;
+    one side after the call replaced by another type; a variable the call left unbound reported as bound to int32 (less general)."""
+    INT = {"k": "prim", "n": "TInt32", "v": 0, "a": []}
+    BOOL = {"k": "prim", "n": "TBool", "v": 0, "a": []}
+    bad = []
+    for c in calls:
+        if c["ev"] != "unify":
+            continue
+        if len(bad) < 40:
+            bad.append(("verdict", dict(c, ok=not c["ok"])))
+        if c["ok"] and c["l2"] != BOOL and sum(1 for k, _ in bad if k == "unified") < 20:
+            bad.append(("unified", dict(c, l2=BOOL, r2=INT)))
+        free = _vars(c["l2"], set()) | _vars(c["r2"], set())
+        if c["ok"] and free and sum(1 for k, _ in bad if k == "general") < 20:
+            v = sorted(free)[0]
+            bad.append(("general", dict(c, l2=_subst_var(c["l2"], v, INT), r2=_subst_var(c["r2"], v, INT))))
+    if len(bad) < 30:
+        raise ToolError("unifytrace self-test: too few calls to corrupt")
+    d = workdir(f"unify-selftest-{name}-{os.getpid()}")
+    path = os.path.join(d, "bad.ndjson")
+    write_lines(path, [c for _, c in bad])
+    r = run_tlc("UnifyTrace", "UnifyTrace.cfg", env={"UNIFY": path}, workers=1, xmx="2g", timeout=600, xss="512m", name=f"unify-selftest-{name}")
+    if r.rc != 0:
+        raise ToolError("UnifyTrace self-test failed to run: " + (r.error or r.stdout[-800:]))
+    rejected = {rj["at"] for rj in r.json_prints("UNIFYREJECT")}
+    missed = [bad[i][0] for i in range(len(bad)) if i + 1 not in rejected]
+    if missed:
+        raise ToolError(f"unifytrace self-test: {len(missed)} corrupted calls were accepted ({sorted(set(missed))}) - the trace specification does not bind that field")
+    return len(bad)
 
 
 def design_model(tier):
